@@ -73,5 +73,8 @@ Example C11_tilde_is_quoted :
     = [[114; 109; 32; 39; 47; 120; 47; 97; 61; 126; 39]] /\
   bash_words [114; 109; 32; 39; 47; 120; 47; 97; 61; 126; 39] = Some [W_rm; path_bytes tilde_path].
 Proof. exact c11_tilde. Qed.
+Example C11_same_commands_premises_inhabited : forall sl,
+  printable (ex_cmd OpHardLink) /\ cmd_paths_wf (sfx w_env) (ex_cmd OpHardLink) /\ cmd_ok sl ex_s (fcmd_of w_env (ex_cmd OpHardLink)).
+Proof. exact c11_ex_hyps. Qed.
 Example C11_premises_inhabited : forall sl op, is_move op = false -> run_ok w_ax w_env sl op (w_cfg []) w_sm ex_s ex_r.
 Proof. exact ex_run_ok. Qed.
